@@ -1,13 +1,13 @@
 (* Model/DurRegexMatch.v — C13: the pure-Python duration parser with the regular expression EXECUTED instead of hand-matched.
    Gen/DurRegexAst.v is the AST of ISO8601_DURATION generated from /repo's pattern string through CPython's own pattern parser
    (unbounded repetitions bounded by a parameter, instantiated here with the length of the input); it is run by the span-tracking
-   backtracking matcher of Proofs/RegexShape.v (`re_match_sp`, the twin of Model/C07Regex.v's `re_match`).  The match object is
+   backtracking matcher of Model/RegexSpan.v (`re_match_sp`, the twin of Model/C07Regex.v's `re_match`).  The match object is
    converted to the record `dmatch` that Model/DurParse.v's post-match code `py_args` consumes: a group's text without its
    designator, split at the decimal separator, and its start index (m.start(name)).  No proofs here.
    Proofs/C13Regex.v proves `match_duration_re s = match_duration s` for EVERY string s (the hand-written matcher of
    Model/DurParse.v, which the correspondence run of ./check C13 exercises, IS the regular expression). *)
 From Coq Require Import ZArith List Bool.
-From PV Require Import Lib.PyBase Model.C07Regex Gen.DurRegexAst Model.DurParse Proofs.RegexShape.
+From PV Require Import Lib.PyBase Model.C07Regex Model.RegexSpan Gen.DurRegexAst Model.DurParse.
 Import ListNotations.
 Open Scope Z_scope.
 
